@@ -1,49 +1,57 @@
 #!/bin/bash
-# usage: seedsweep_par.sh [jobs] [seed-id ...]  -- like seedsweep.sh, but each seeded change is applied to its own scratch worktree of
-# /repo HEAD (under /tmp, removed afterwards) and several are checked at a time; /repo's working tree is not touched.
-# Results are MERGED into seeded/RESULTS.tsv (lines of re-run seeds are replaced) and each meta.json.
-cd /verif
+# usage: [SWEEP_VERIF=dir] seedsweep_par.sh [jobs] [seed-id ...]
+# Like seedsweep.sh, but each seeded change is applied to its own scratch worktree (under /tmp, removed afterwards) of the commit
+# that /repo's HEAD names WHEN THE SWEEP STARTS, with the contract file of that commit, and several are checked at a time; /repo's
+# working tree is not touched, so the sweep can run (e.g. under `vp run`) while work goes on. Results are MERGED into
+# $V/seeded/RESULTS.tsv (lines of re-run seeds are replaced) and each $V/seeded/<id>/meta.json.
+V=${SWEEP_VERIF:-/verif}
+cd $V || exit 2
 J=${1:-5}; shift
 SEEDS="$@"
 [ -z "$SEEDS" ] && SEEDS=$(ls -d seeded/C*/ | xargs -n1 basename)
-BIN=${GOVC_BIN:-/verif/bin/govc}
-OUT=/tmp/seedsweep_par; rm -rf $OUT; mkdir -p $OUT
+BIN=${GOVC_BIN:-$V/bin/govc}
+OUT=/tmp/seedsweep_par_$$; rm -rf $OUT; mkdir -p $OUT
+SHA=$(git -C /repo rev-parse HEAD)
+git -C /repo show $SHA:contracts_verif.go > $OUT/contracts_verif.go
+echo "sweep of $(echo $SEEDS | wc -w) seeded changes against /repo $SHA, verif $V ($(git -C $V rev-parse --short HEAD 2>/dev/null)), $J at a time"
 one() {
-  S=$1; P=${S:0:3}; WT=/tmp/sweepwt_$S
-  git -C /repo worktree add --detach -q $WT HEAD 2>/dev/null || { echo "$S cannot create worktree" > $OUT/$S.log; return; }
-  if ! (cd $WT && (git apply /verif/seeded/$S/patch.diff 2>/dev/null || (git apply --3way /verif/seeded/$S/patch.diff >/dev/null 2>&1 && [ -z "$(git diff --name-only --diff-filter=U)" ]))); then
+  S=$1; P=${S:0:3}; WT=/tmp/sweepwt_$$_$S
+  git -C /repo worktree add --detach -q $WT $SHA 2>/dev/null || { echo "cannot create worktree" > $OUT/$S.log; return; }
+  if ! (cd $WT && (git apply $V/seeded/$S/patch.diff 2>/dev/null || (git apply --3way $V/seeded/$S/patch.diff >/dev/null 2>&1 && [ -z "$(git diff --name-only --diff-filter=U)" ]))); then
     echo "PATCH-DOES-NOT-APPLY" > $OUT/$S.log
   else
     t0=$(date +%s)
-    timeout 1500 $BIN check $P --tier quick --repo $WT --contracts /repo/contracts_verif.go --verif /verif --no-evidence > $OUT/$S.log 2>&1
+    timeout 1800 $BIN check $P --tier quick --repo $WT --contracts $OUT/contracts_verif.go --verif $V --no-evidence > $OUT/$S.log 2>&1
     echo "EXIT=$? SECONDS=$(( $(date +%s) - t0 ))" >> $OUT/$S.log
   fi
   git -C /repo worktree remove --force $WT 2>/dev/null; rm -rf $WT
+  echo "done $S: $(tail -1 $OUT/$S.log)"
 }
-export -f one; export OUT BIN
+export -f one; export OUT BIN V SHA
 echo $SEEDS | tr ' ' '\n' | xargs -P $J -I{} bash -c 'one {}'
-python3 - $SEEDS <<'P'
+python3 - $V $OUT $SHA $SEEDS <<'P'
 import sys,json,re,os
-seeds=sys.argv[1:]
+V,OUT,SHA=sys.argv[1:4]; seeds=sys.argv[4:]
 res={}
-if os.path.exists('/verif/seeded/RESULTS.tsv'):
-    for l in open('/verif/seeded/RESULTS.tsv'):
+if os.path.exists(V+'/seeded/RESULTS.tsv'):
+    for l in open(V+'/seeded/RESULTS.tsv'):
         if l.strip(): res[l.split('\t')[0]]=l.rstrip('\n')
 for s in seeds:
-    out=open('/tmp/seedsweep_par/%s.log'%s).read()
+    out=open('%s/%s.log'%(OUT,s)).read()
     p=s[:3]
     if 'PATCH-DOES-NOT-APPLY' in out:
         res[s]='%s\t%s\tPATCH-DOES-NOT-APPLY\t'%(s,p); continue
     m=re.search(r'EXIT=(\d+)',out); rc=m.group(1) if m else '?'
     vl=[l for l in out.split('\n') if l.startswith('VIOLATION')]
-    viol=' '.join(re.sub(r'.*replay=/verif/out/replays/','',l).split('.json')[0] for l in vl[:3])
+    viol=' '.join(re.sub(r'.*replay=\S*/out/replays/','',l).split('.json')[0] for l in vl[:3])
     repro='yes' if any('no-failing-input-found' not in l for l in vl) else 'no'
     res[s]='%s\t%s\texit=%s\treproduced=%s\t%s'%(s,p,rc,repro,viol)
-    f='/verif/seeded/%s/meta.json'%s
+    f='%s/seeded/%s/meta.json'%(V,s)
     m=json.load(open(f))
     m['detected_by']=([{"check":"./check %s --tier quick"%p,"obligations_or_cases":viol.split()}] if rc=='1' else [])
-    m['detected']=(rc=='1'); m['reproduced_on_real_code']=(repro=='yes')
+    m['detected']=(rc=='1'); m['reproduced_on_real_code']=(repro=='yes'); m['swept_at_repo_commit']=SHA
     json.dump(m,open(f,'w'),indent=1)
-open('/verif/seeded/RESULTS.tsv','w').write('\n'.join(res[k] for k in sorted(res))+'\n')
+open(V+'/seeded/RESULTS.tsv','w').write('\n'.join(res[k] for k in sorted(res))+'\n')
 for s in seeds: print(res[s][:200])
 P
+rm -rf $OUT
